@@ -51,9 +51,9 @@ TRUSTED = [
     "callee contract of PairInteractions.caller is the C12 contract (triple = derivatives of the documented s(r)), used generalised to an arbitrary function "
     "of (r, epsilon, sigma, r_c, shift); callee contract of remove_pbc is the C02 row spec (pbc_spec_row)",
     "written loop summaries (pyvc.loops.written_summary) are checked by init/step obligations; the induction principle over the loop counter / particle number is trusted",
-    "induction rule used by the clause families translations:row-sum, translations:constant-factor, PR-range:regrouping (claim(0) and claim(n) => claim(n+1) for a "
-    "fresh n, both proved with the Sigma unfold axiom instances, give claim(N)) and, for PR-range:induction, in the partial-sum form (base P(0; 0, 0); step "
-    "P(k; s1, s2) => P(k+1; s1 + a, s2 + a^2) for arbitrary reals s1, s2, a gives P(N; sum a_t, sum a_t^2)); the instance at N is handed to the final query as an assumption",
+    "induction rule used by the clause families translations:row-sum, translations:constant-factor, translations:flat-column-index, PR-range:regrouping, "
+    "PR-range:induction and induction (unit participation_ratio): claim(0) and claim(n) => claim(n+1) for a fresh n, both proved with the Sigma unfold axiom "
+    "instances, give claim(N); the instance at N is handed to the final query as an assumption",
     "a fact proved at fresh symbolic indices (i, n) is used at other index terms by substitution: at the Skolem index of Sigma-extensionality "
     "(symmetric:diagonal-summand at (i, x)) and at the induction variable; sv.generalize (a term replaced by a fresh constant) is a sound proving step",
     "universally quantified preconditions are used by instantiation: 'every particle type is in 1..K' (per application of ptype), 'no two particles coincide "
@@ -301,29 +301,41 @@ def pr_spec(vec, N, d):
     return sv.div(sv.mul(S1, S1), sv.mul(sv.to_real(N), S2))
 
 
-def cauchy_schwarz_clauses(vec, N, d, prefix="", tag=""):
+def cauchy_schwarz_clauses(vec, N, d, prefix="", tag="", opts=None):
     """(sum_t a_t)^2 <= N sum_t a_t^2 for a_t = |e_t|^2 >= 0 of the (N, d) field `vec`, by induction over the particle number:
       Q(n, c): sum_{t<n} a_t^2 - 2 c sum_{t<n} a_t + n c^2 >= 0     (base n = 0, step n -> n+1: adds (a_n - c)^2)
     and the instance c = S1(N)/N.  Yields (name, goal, opts) obligations and finally (None, S1^2 <= N S2, None): the fact that the
-    induction principle (trusted rule) gives from base + step + instance."""
+    induction principle (trusted rule) gives from base + step + instance.
+    The step is split so that no query depends on the non-linear solver's luck (it used to flip between 0.3 s and a time-out):
+      unfold:  S1(n+1) = S1(n) + a_n,  S2(n+1) = S2(n) + a_n^2         (Sigma unfold axiom instances, a_n written out)
+      step:    from these two equations, (a_n - c)^2 >= 0 (lemma:square-nonnegative) and Q(n, c): Q(n+1, c) - with a_n and the four
+               sums generalised to arbitrary reals (linear arithmetic over the monomials)."""
+    opts = dict(opts or {})
     n, c = sv.integer("n_ind" + tag), sv.real("c_ind" + tag)
+
+    def Qv(k, x1, x2, cc):
+        return sv.cmp(">=", sv.add(sv.sub(x2, sv.mul(sv.mul(2, cc), x1)), sv.mul(sv.to_real(k), sv.mul(cc, cc))), 0)
 
     def Q(k, cc):
         S1, S2, _ = pr_sums(vec, N, d, n=k)
-        return sv.cmp(">=", sv.add(sv.sub(S2, sv.mul(sv.mul(2, cc), S1)), sv.mul(sv.to_real(k), sv.mul(cc, cc))), 0)
-    yield prefix + "induction:Q(0,c)", Q(0, c), {}
-    # the step adds (a_n - c)^2 >= 0: the square is given to the solver as an (own, trivially true) fact so that the step is
-    # linear arithmetic over the monomials and does not depend on the non-linear solver's variable order
-    a_n = pr_sums(vec, N, d)[2](n)
+        return Qv(k, S1, S2, cc)
+    yield prefix + "induction:Q(0,c)", Q(0, c), dict(opts)
+    n1 = sv.add(n, 1)
+    S1n, S2n, a = pr_sums(vec, N, d, n=n)
+    S1m, S2m, _ = pr_sums(vec, N, d, n=n1)
+    a_n = a(n)
+    unfold = sv.and_(sv.cmp("==", S1m, sv.add(S1n, a_n)), sv.cmp("==", S2m, sv.add(S2n, sv.mul(a_n, a_n))))
+    yield prefix + "induction:unfold:S1(n+1)=S1(n)+a_n,S2(n+1)=S2(n)+a_n^2", sv.implies(n >= 0, unfold), dict(opts)
     sq = sv.cmp(">=", sv.mul(sv.sub(a_n, c), sv.sub(a_n, c)), 0)
-    yield prefix + "induction:Q(n,c)=>Q(n+1,c)", sv.implies(sv.and_(n >= 0, Q(n, c)), Q(sv.add(n, 1), c)), {"assume": [sq]}
+    step = sv.implies(sv.and_(n >= 0, unfold, sq, Qv(n, S1n, S2n, c)), Qv(n1, S1m, S2m, c))
+    yield prefix + "induction:Q(n,c)=>Q(n+1,c)", sv.generalize(step, [a_n, S1n, S2n, S1m, S2m])[0], dict(opts)
     xg = sv.real("x_gen" + tag)
-    yield prefix + "lemma:square-nonnegative", sv.cmp(">=", sv.mul(xg, xg), 0), {}
+    yield prefix + "lemma:square-nonnegative", sv.cmp(">=", sv.mul(xg, xg), 0), dict(opts)
     S1, S2, _ = pr_sums(vec, N, d)
     Nr = sv.to_real(N)
     cs = sv.cmp("<=", sv.mul(S1, S1), sv.mul(Nr, S2))
     inst = Q(N, sv.div(S1, Nr))               # the instance c = S1/N of the induction's conclusion
-    yield prefix + "cauchy-schwarz-from-Q(N,S1/N)", sv.generalize(sv.implies(sv.and_(inst, N >= 1), cs), [S1, S2])[0], {}
+    yield prefix + "cauchy-schwarz-from-Q(N,S1/N)", sv.generalize(sv.implies(sv.and_(inst, N >= 1), cs), [S1, S2])[0], dict(opts)
     yield None, cs, None
 
 
@@ -350,7 +362,8 @@ class ParticipationRatio(Unit):
         return [V], {}, dict(d=d, N=N, V=V, vec=V.reader())
 
     def clause_names(self, case):
-        return ["PR=(sum|e|^2)^2/(N.sum|e|^4)", "induction:Q(0,c)", "induction:Q(n,c)=>Q(n+1,c)", "lemma:square-nonnegative", "cauchy-schwarz-from-Q(N,S1/N)",
+        return ["PR=(sum|e|^2)^2/(N.sum|e|^4)", "induction:Q(0,c)", "induction:unfold:S1(n+1)=S1(n)+a_n,S2(n+1)=S2(n)+a_n^2", "induction:Q(n,c)=>Q(n+1,c)",
+                "lemma:square-nonnegative", "cauchy-schwarz-from-Q(N,S1/N)",
                 "0<PR<=1", "div0:N.sum|e|^4!=0", "frame-input-not-written"]
 
     def ensures(self, ctx, case, inp, out):
@@ -620,9 +633,12 @@ class Diagonalize(Unit):
     solver_opts = {"abstract_nl": True}
 
     def cases(self):
-        # K = number of species (masses / parameter matrices K x K); d=3 with K=2 is also proved (about 3 min on one core) and
-        # can be enabled here; the quick tier keeps the species case split in 2-D, where the mass logic is the same code
+        # K = number of species (masses / parameter matrices K x K).  Measured (one core, idle): d=2: K=2 25 s, K=3 30 s; d=3: K=1 45 s, K=3 60 s
         return ["d=2/K=2", "d=2/K=3", "d=3/K=1", "d=3/K=3", "d=2/K=1/default-outputfile"]
+
+    def thorough_cases(self):
+        # the remaining species counts the library enumerates elsewhere (up to five), same contract: only run with --tier thorough
+        return ["d=3/K=2", "d=2/K=4", "d=3/K=4", "d=2/K=5", "d=3/K=5"]
 
     # ------------------------------------------------------------------------------------------ callee contracts
     def _summaries(self, S):
@@ -826,7 +842,8 @@ class Diagonalize(Unit):
                 yield nm, True
 
     PR_RANGE = ["PR-range:regrouping:induction-base(n=0)", "PR-range:regrouping:induction-step(n->n+1)",
-                "PR-range:eigenvector-is-a-non-zero-field:sum_n|e_n|^2=1", "PR-range:induction:Q(0,c)", "PR-range:induction:Q(n,c)=>Q(n+1,c)",
+                "PR-range:eigenvector-is-a-non-zero-field:sum_n|e_n|^2=1", "PR-range:induction:Q(0,c)",
+                "PR-range:induction:unfold:S1(n+1)=S1(n)+a_n,S2(n+1)=S2(n)+a_n^2", "PR-range:induction:Q(n,c)=>Q(n+1,c)",
                 "PR-range:lemma:square-nonnegative", "PR-range:cauchy-schwarz-from-Q(N,S1/N)", "PR-range:0<PR<=1-for-every-saved-mode"]
 
     def _pr_range(self, ctx, S, d, dN, k, kin, evecs, vec, pr_k):
@@ -849,24 +866,13 @@ class Diagonalize(Unit):
         unit_norm = sv.implies(kin, sv.cmp("==", S1, 1))
         # the induction principle (base + step above) gives G(N); eigh's normalisation sum_{b < dN} V(b,k)^2 = 1 is instantiated for column k
         yield "PR-range:eigenvector-is-a-non-zero-field:sum_n|e_n|^2=1", unit_norm, {"assume": [G(N)]}
-        # Cauchy-Schwarz for this field, a_t = |e_t|^2 = sum_c V(t d + c, k)^2:  Q(n, c): S2(n) - 2 c S1(n) + n c^2 >= 0 by induction over n in
-        # the form "values of the partial sums": base Q(0; 0, 0); step for arbitrary reals s1, s2 (the partial sums), kappa >= 0 and the
-        # new term a (generalised: nothing about a_n is needed):  Q(kappa; s1, s2) => Q(kappa + 1; s1 + a, s2 + a^2)
-        c, kap, s1, s2, a_ = (sv.real(x + "_ev") for x in ("c", "kappa", "s1", "s2", "a"))
-
-        def Q(kk, x1, x2, cc):
-            return sv.cmp(">=", sv.add(sv.sub(x2, sv.mul(sv.mul(2, cc), x1)), sv.mul(kk, sv.mul(cc, cc))), 0)
-        plain = {"solver_opts": {}, "timeout": 20}
-        yield "PR-range:induction:Q(0,c)", Q(0, 0, 0, c), plain
-        sq = sv.cmp(">=", sv.mul(sv.sub(a_, c), sv.sub(a_, c)), 0)
-        yield "PR-range:lemma:square-nonnegative", sq, plain
-        yield ("PR-range:induction:Q(n,c)=>Q(n+1,c)", sv.implies(sv.and_(kap >= 0, Q(kap, s1, s2, c)), Q(sv.add(kap, 1), sv.add(s1, a_), sv.add(s2, sv.mul(a_, a_)), c)),
-               dict(plain, assume=[sq]))
-        S1, S2, _ = pr_sums(vec, N, d)
-        Nr = sv.to_real(N)
-        cs = sv.cmp("<=", sv.mul(S1, S1), sv.mul(Nr, S2))
-        # the induction rule gives Q(N; S1(N), S2(N), c) for every c; the instance c = S1/N:
-        yield "PR-range:cauchy-schwarz-from-Q(N,S1/N)", sv.generalize(sv.implies(sv.and_(Q(Nr, S1, S2, sv.div(S1, Nr)), N >= 1), cs), [S1, S2])[0], plain
+        # Cauchy-Schwarz for this field (a_t = |e_t|^2 = sum_c V(t d + c, k)^2): the same induction as in the unit participation_ratio, on the eigenvector
+        cs = None
+        for name, goal, opts in cauchy_schwarz_clauses(vec, N, d, prefix="PR-range:", tag="_ev", opts={"solver_opts": {}, "timeout": 20}):
+            if name is None:
+                cs = goal
+            else:
+                yield name, goal, opts
         yield "PR-range:0<PR<=1-for-every-saved-mode", sv.implies(kin, sv.and_(sv.cmp(">", pr_k, 0), sv.cmp("<=", pr_k, 1))), {"assume": [cs, unit_norm]}
 
     # ------------------------------------------------------------------------------------------ symmetry, translations
